@@ -267,6 +267,32 @@ func runC02(c c02Case) kit.Result {
 			if err := check("QueryWithCursorC(tree set of all ids)", ids3, count3, err); err != nil {
 				return err
 			}
+			// union of two overlapping tree sets (ids common to both must be served once, in either direction)
+			if len(c.Data.People) > 0 {
+				pq3u, _ := ast.Parse(store, text)
+				ids3u, count3u, err := store.QueryWithCursorC(tx, func(tx *bbolt.Tx, forward bool) ast.SetCursor {
+					a, b := ast.NewTreeSet(forward), ast.NewTreeSet(forward)
+					n := len(c.Data.People)
+					for i := 0; i < n; i++ {
+						if i%3 != 0 {
+							a.Add([]byte(c.Data.People[i].ID))
+						}
+						if i%2 == 0 || i >= n/2 {
+							b.Add([]byte(c.Data.People[i].ID))
+						}
+						if i%3 == 0 {
+							b.Add([]byte(c.Data.People[i].ID))
+						}
+					}
+					if a.Size() == 0 {
+						return b.ToCursor()
+					}
+					return ast.NewUnionSetCursor(a.ToCursor(), b.ToCursor(), forward)
+				}, pq3u)
+				if err := check("QueryWithCursorC(union of two overlapping tree sets)", ids3u, count3u, err); err != nil {
+					return err
+				}
+			}
 			// bucket cursor provider
 			pq4, _ := ast.Parse(store, text)
 			ids4, count4, err := store.QueryWithCursorC(tx, func(tx *bbolt.Tx, forward bool) ast.SetCursor {
